@@ -399,6 +399,20 @@ def run(ctx):
             ctx.ob('match-shape', f'sees-through-notation({subj})', ok,
                    'match_single tests the pattern for MetaVar before expanding notation: a notation whose body is a bare metavariable never matches',
                    py.where(mname, fn))
+        elif mname == 'pattern' and (mname, qn.split('.')[-1]) not in c12.SYNTACTIC:
+            # the destructuring helpers match_single relies on (unwrap, X.deconstruct): all notation levels must be expanded, on both
+            # sides, or an instance that is a notation over a notation fails to match its own expansion
+            ok = has_inst and c12.instantiate_branch_sees_through(fn, subj)
+            ctx.ob('match-shape', f'helper-sees-through-notation/{qn}', ok,
+                   f'{qn} is used by match_single to destructure both sides; it does not expand every level of notation around `{subj}` '
+                   f'(one simplify() strips one level): matching a pattern against a notation application of it fails', py.where(mname, fn))
+    # matching is a function of its arguments: no module-level table written from the matching code (a memo keyed by the pattern
+    # alone returns the answer computed for another constructor / another call)
+    from .c18 import module_state_writes
+    for mname, qn, g, node in module_state_writes(py, {'pattern'}):
+        ctx.ob('match-shape', f'pure/{qn}:{g}', False,
+               f'{qn} writes the module-level object `{g}`: the result of matching / destructuring then depends on earlier calls in the '
+               f'process', py.where(mname, node))
     ctx.floor('optional-truthiness', 12)
     ctx.floor('match-shape', 11)
     ctx.explanation = (
